@@ -2,7 +2,6 @@ package main
 
 import (
 	"fmt"
-	"go/token"
 	"go/types"
 	"sort"
 	"strings"
@@ -50,7 +49,7 @@ func (e *Exec) Run() {
 	if e.contract != nil {
 		for _, g := range e.contract.Ghosts {
 			parts := strings.SplitN(g, " ", 2)
-			tv, err := types.Eval(e.prog.fset, fn.Pkg.Pkg, token.NoPos, parts[1])
+			tv, err := types.Eval(e.prog.fset, fn.Pkg.Pkg, fn.Pos(), parts[1])
 			if err != nil {
 				panic(contractError{"ghostparam " + g + ": " + err.Error()})
 			}
@@ -224,7 +223,8 @@ func (e *Exec) checkFrame(st *State, fr *Frame, env *Env) {
 						now, ok2 := e.load(st, l, nil).(VSlice)
 						g := False
 						if ok1 && ok2 && was.Reg == now.Reg {
-							g = Eq(was.Base, now.Base)
+							g = And(BVCmp("bvsle", was.Base, now.Base), BVCmp("bvsle", now.Base, BVBin("bvadd", was.Base, was.Cap)),
+								BVCmp("bvsle", BVBin("bvadd", now.Base, now.Cap), BVBin("bvadd", was.Base, was.Cap)))
 						}
 						e.emit(st, fmt.Sprintf("frame(reslice %s)", prettyLoc(l)), "frame", nil, g, "")
 					}
